@@ -1,0 +1,27 @@
+//go:build verif
+// +build verif
+
+package ledgerstore
+
+// Verification hooks (build tag verif). They only observe or inject faults chosen by the
+// verification harness; with the tag off hooks_noverif.go supplies empty inlineable versions.
+
+// VerifCrashHook, when set, is called at every persistence point of submitBlock / recoverStore.
+var VerifCrashHook func(site string, height uint32)
+
+// VerifNeedFixHook, when set, may override which signature-threshold rule verifyHeader applies
+// (the main-net rule above height 20,000,000 cannot be reached by building blocks).
+var VerifNeedFixHook func(needFix bool) bool
+
+func verifCrashPoint(site string, height uint32) {
+	if h := VerifCrashHook; h != nil {
+		h(site, height)
+	}
+}
+
+func verifNeedFix(needFix bool) bool {
+	if h := VerifNeedFixHook; h != nil {
+		return h(needFix)
+	}
+	return needFix
+}
